@@ -243,10 +243,14 @@ def run_case(case):
             chooser = S.list_chooser(case.get("choices", []))
         sc = S.Scheduler(chooser, trace_filter, on_yield=on_yield)
         S.SLock.sched = sc
-        try:
-            sc.run([worker(o) for o in plan], first=case.get("first", 0))
-        finally:
-            S.SLock.sched = None
+        import warnings
+        with warnings.catch_warnings():
+            if case.get("warn_error"):
+                warnings.simplefilter("error")      # the application runs with warnings turned into errors (python -W error)
+            try:
+                sc.run([worker(o) for o in plan], first=case.get("first", 0))
+            finally:
+                S.SLock.sched = None
         if sc.overrun:
             raise HarnessError("step limit exceeded in a C08 schedule")
         if not sc.deadlock and not sc.errors and not problems:
@@ -308,7 +312,7 @@ def check(case):
         sig, msg = problems[0]
         raise Violation([sig, case["harness"]], "%s; harness %s threads %r max_size %r schedule %s"
                         % (msg, case["harness"], case["threads"], case.get("max_size"),
-                           ("first=%d preempt=%r" % (case.get("first", 0), case["preempt"])) if "preempt" in case else "choices=%r" % (case.get("choices"),)))
+                           (("first=%d preempt=%r" % (case.get("first", 0), case["preempt"])) if "preempt" in case else "choices=%r" % (case.get("choices"),)) + (" (warnings are errors)" if case.get("warn_error") else "")))
     inside = [t for t in sc.trace if t[3] is not None]
     nontrivial = bool(inside)
     labels = ["harness=" + case["harness"], "switches=%d" % min(sc.switches, 4)]
@@ -355,6 +359,11 @@ def bounded_cases(tier, seed):
         confs.append({"harness": "b", "threads": [["setmanyrefused"], ["get"]], "max_size": ms})
     confs.append({"harness": "b", "threads": [["setrefused"], ["setmanyrefused"]], "max_size": 2})
     confs.append({"harness": "c", "threads": [["set"], ["close"]], "max_size": 2})
+    confs.append({"harness": "c", "threads": [["set"], ["close"]], "max_size": 2, "warn_error": True})
+    confs.append({"harness": "c", "threads": [["get", "set"], ["close"]], "max_size": 1, "warn_error": True})
+    confs.append({"harness": "a", "threads": [["gr"], ["clear"]], "max_size": 2, "idle": 0, "warn_error": True})
+    confs.append({"harness": "a", "threads": [["ctx", "gr"], ["clear"], ["gd"]], "max_size": 2, "idle": 0, "warn_error": True})
+    confs.append({"harness": "b", "threads": [["set"], ["quit"]], "max_size": 2, "warn_error": True})
     confs.append({"harness": "c", "threads": [["get"], ["close"]], "max_size": 1})
     core = [("a", ["gr"], ["gr"], 1), ("a", ["gd"], ["gr"], 1), ("a", ["gr"], ["ctxfail"], 1), ("a", ["gr"], ["clear"], 1),
             ("b", ["quit"], ["set"], 2), ("b", ["set"], ["set"], 1), ("b", ["get"], ["failget"], 2)]
